@@ -19,6 +19,55 @@ CLAIMED = {
             "Trusted: TLC/SANY/Json module, the projection reading _parent/_children/_sources/_sensors/_collections and the public *_all views. "
             "Bounded universe for exhaustiveness; larger universes only sampled. copy() is covered under C18.",
             "DESIGN.md section 5 C11"),
+    "C09": ("model_checking",
+            "TLAPS proof of the padding arithmetic + TLC check that the transcription of apply_move/apply_rotation equals the documented index semantics + replay of every transition into real objects + TLC trace validation (TV_Path)",
+            "TLAPS proves (unbounded integers) that path_padding_param computes the smallest index interval covering old path and operation window. TLC checks on all "
+            "bounded inputs (scalar / vector <= 3-4, start in -5..5 and auto, anchors none/0/single/per-step, depth-bounded sequences) that the operational "
+            "transcription of class_BaseTransform.py equals the declarative semantics of the property, that both paths keep equal length >= 1 and that setters "
+            "pad/slice. Every transition of that graph is executed on a real object (each rotation through the rotate_from_* forms, malformed calls must be "
+            "rejected without effect), also under random rigid motions and length units, plus seeded random histories; TLC judges each step.",
+            "Trusted: TLAPS/SMT, TLC, projection of _position/_orientation to the lattice (off-lattice results are logged as impossible values). Orientations restricted to the "
+            "24 cube rotations for exact comparison (generic global frames via concretization).",
+            "DESIGN.md section 5 C09"),
+    "C10": ("model_checking",
+            "TLC action properties RelPose/Frame on spec/MC_Compound + replay of transitions into real nested collections + TLC trace validation (TV_Path) incl. coll.getB() of internal sensors",
+            "TLC checks for four tree shapes (up to 3 levels) and all depth-bounded sequences of move/rotate/position=/orientation=/reset_path on ANY object that every "
+            "descendant's pose relative to the target is the pad/slice image of the old one, that non-descendants are untouched and that shared path length is kept. The "
+            "transitions (all from initial states, seeded sample of deeper ones in quick, all in thorough) run on real nested collections with tagged sources and sensors; "
+            "TLC judges own path, frame, relative poses and the invariance of the collection's field seen by its own sensors.",
+            "Trusted: TLC, lattice projection. Tree shapes and palettes bounded; other trees sampled by random histories.",
+            "DESIGN.md section 5 C10"),
+    "C04": ("model_checking",
+            "TLC-enumerated call scenarios (MC_FieldWrap) + exact comparison of full getB/getH output tensors of tagged sources against the declarative tensor in TLA+ (TV_FieldWrap)",
+            "The result of getBH_level2 is defined in TLA+ as a declarative tensor (sensor pose per path index, pixel positions, sensor frame, handedness, pixel "
+            "aggregation as exact integer reductions). TLC enumerates scenarios (14 sensor arrangements incl. static / translating / rotating / shorter / unrotated / "
+            "first=last orientation / left-handed / mixed pixel shapes, 8 aggregators, flags) and checks definitional facts; every scenario is executed on real Sensor "
+            "objects with integer-valued tagged CustomSources, the complete output tensor and its shape are compared EXACTLY by TLC; static sensors are also replaced by explicit global positions; "
+            "half of the scenarios again under random rigid motions and length units.",
+            "Trusted: TLC, Json; index algebra is class independent so tagged CustomSources stand for all classes; relative poses restricted to the lattice.",
+            "DESIGN.md section 5 C04"),
+    "C05": ("model_checking",
+            "same engine as C04 on source arrangements with nested collections, sumup and mixed orderings (structural superposition, exact)",
+            "TLC checks on the definition that a (nested) collection entry equals the sum of its leaf sources; scenarios with collections of 1-5 leaves, nesting, sensors inside "
+            "source collections, collections followed by bare sources, duplicates and sumup are executed on real objects and the full tensors compared exactly by TLC. "
+            "Linearity in the excitation of real source classes is covered by the law-instance checks (C12 ScaleExc, C13).",
+            "Trusted: TLC, Json; tagged sources. Linearity of each closed-form expression in its excitation is not decided here.",
+            "DESIGN.md section 5 C05"),
+    "C06": ("model_checking",
+            "same engine as C04: element independence and shape/squeeze rule checked by TLC on the definition and exactly on real output tensors",
+            "TLC proves on every enumerated scenario that element (l,m,k,j) of the definition equals the element of the call with source l and sensor k alone (objects with shorter "
+            "paths staying at their last pose), and checks the shape rule; real calls with all orderings, duplicates, path-length patterns and grouping of sources sharing a "
+            "field function are compared exactly, including output shape with and without squeeze.",
+            "Trusted: TLC, Json; tagged sources (batch-composition effects inside the closed-form core functions of real classes are covered by C02/C13 law instances).",
+            "DESIGN.md section 5 C06"),
+    "C08": ("model_checking",
+            "TLC model of the call life cycle with a failure at every phase (MC_FieldCall) + trace validation of hook-recorded phase traces of real calls through FieldCall!RunF + deep before/after digests",
+            "TLC checks NoMutation on the life-cycle model (tile, groups, reduce, rotate, aggregate, un-tile; failure possible at every phase). Every behaviour of the model "
+            "(path-length pattern x failing phase) is realised on real objects through public-API faults (missing dimension/excitation, bad pixel_agg/output, incompatible pixel "
+            "shapes, CustomSource without or with misbehaving field function) or injected at the guarded hook points; TLC replays each recorded phase trace through the spec and "
+            "requires unchanged path lengths at return/raise, identical deep digests of all objects and caller arrays, and identical behaviour when called again.",
+            "Trusted: TLC, hooks commit in /repo (guarded by MAGPYLIB_VERIF), digest covers private attributes, style values, caller arrays as bytes.",
+            "DESIGN.md section 5 C08"),
 }
 NOT_YET = "check not built yet (work in progress)"
 NA = {}
